@@ -250,7 +250,7 @@ package mongokit
 //@ func (*Collection).Update
 //@   tags C15 C07 C02 C01
 //@   uses lists access
-//@   requires coherent(c) && query != nil && skip >= 0
+//@   requires coherent(c) && query != nil
 //@   modifies since(c), ghost.tainted, ghost.cov, ghost.tree
 //@   locals list newList modified filteredChanges changes
 //@   ensures [ghostdef] failTaints(c)
@@ -305,7 +305,7 @@ package mongokit
 //@ func (*Collection).Delete
 //@   tags C15 C02 C01
 //@   uses lists
-//@   requires coherent(c) && query != nil && skip >= 0
+//@   requires coherent(c) && query != nil
 //@   modifies since(c), ghost.tainted, ghost.cov, ghost.tree
 //@   locals list
 //@   ensures [ghostdef] failTaints(c)
@@ -369,7 +369,8 @@ package mongokit
 //@   let lo = ite(skip < len(F), skip, len(F))
 //@   let hi = ite(limit > 0 && skip + limit < len(F), skip + limit, len(F))
 //@   modifies nothing
-//@   ensures [C13,C01 name=window] imp(err == nil && skip >= 0, result0 != nil && len(result0.Matched) == hi - lo && forall(i, 0, hi - lo, result0.Matched[i] == F[lo + i]))
+//@   ensures [C13,C20 name=negative-skip-rejected] imp(skip < 0, err != nil)
+//@   ensures [C13,C01 name=window] imp(err == nil, result0 != nil && len(result0.Matched) == hi - lo && forall(i, 0, hi - lo, result0.Matched[i] == F[lo + i]))
 
 // ---------------------------------------------------------------------------
 // apply.go: the field update operators (C11) and what they record for the
